@@ -130,7 +130,12 @@ class CUnit:
     def _prepare(self):
         text, route = self.tu()
         path = cextract.write_tu(text)
-        nodes = cextract.clang_ast(path, self.filt, self.defines)
+        if isinstance(self.filt, (list, tuple)):
+            nodes = []
+            for f in self.filt:         # several name filters: the subject and the helpers it inlines
+                nodes.extend(cextract.clang_ast(path, f, self.defines))
+        else:
+            nodes = cextract.clang_ast(path, self.filt, self.defines)
         ftext = cextract.function_text(text, self.fname) or ""
         return text, route, path, nodes, ftext
 
